@@ -58,6 +58,19 @@ Robustness round 3 (benign variants selftest/benign/C06-r3-*): obligations resta
                        the closure's parameter is the receiver's error (C06_helpers.closure_binding); every None site must comply
   R7                   a private helper that is fs::read_to_string written out (File::open(p)?.read_to_string(&mut fresh)?, std's
                        definition: C06_helpers.read_to_string_equiv) is read as that call
+Robustness round 4 (benign variants / mutants selftest/*/C06-r4-*): where a helper lives and how it is declared does not matter
+  assembly helpers     R1 helpers/unmodified and R6 cover every function whose return value is part of a context (the functions
+                       inline_deep makes transparent: C06_helpers.flow_helpers) — other modules, associated constructors
+                       (Target::from_env), generic helpers (util::read_optional_toml_file) — not only neighbours in runtime.rs
+  context literal      may be written in a constructor-like private helper the host hands the parts to (read through inline_deep /
+                       mk_unwrap in the host's terms); */unmodified follows the hand-over: arguments of calls to those helpers, the
+                       receivers of `?` / map_err / inspect_err, referents of shared borrows (C06_helpers.carried_locals_through)
+  R5 store/none        the function that reads store.toml is named by the effect "read_toml_file(P) is called" reached from
+                       libcnb_runtime_build with P in its terms (the path may be joined by the caller of a generic helper); a bare
+                       `None` arm bound to a local counts as a None site also in a helper returning Result<Option<Store>, _>
+  names                a finding is reported under the pinned tree's name of a private function that was moved *and* re-declared
+                       (free fn <-> associated fn: C06_helpers.baseline_names; other signature: name_by_role "the function that
+                       builds the context's Target"); read_platform_env / the argv parsers are looked up the same way (find_fn)
 Not decided: equality of parsed TOML values with the document (toml crate), file contents.
 """
 from .lib.discard import result_fates, local_fates, verdict
@@ -179,6 +192,7 @@ def run(ctx, rep):
     EF = Effects(prog, sl)
     # the one mutable borrow of an array that is filled from a table is its fill: accounted for by reading its slots
     filled = lambda fn_, l_: H.filled_array(EF, fn_, l_) is not None
+    raw_fields = []     # the context field values as written (before helpers are inlined)
     # ---- R1 ------------------------------------------------------------------------------------------
     for host, decl, adt in ((rd, 'libcnb::buildpack::Buildpack::detect', 'DetectContext'), (rb, 'libcnb::buildpack::Buildpack::build', 'BuildContext')):
         rep.analysed(host)
@@ -187,7 +201,17 @@ def run(ctx, rep):
             rep.unproven('R1', adt, host.file, 'call of %s not found' % decl)
             continue
         c = cs[0]
-        cv = strip(sl.operand(host, c.args[1]))
+        cv_raw = sl.operand(host, c.args[1])
+        cv = strip(cv_raw)
+        if cv[0] != 'agg':
+            # the struct literal may be written in a constructor-like private helper that the host hands the parts to
+            # (`let ctx = assemble(app_dir, .., &args.platform_dir_path)?`): the helper is transparent, its parameters are
+            # read in the host's terms
+            cv = strip(sl.mk_unwrap(sl.inline_deep(cv_raw, keep=KEEP), 1))
+            if cv[0] != 'agg':
+                cv = strip(sl.inline_deep(cv_raw, keep=KEEP))
+        ctx_helpers = H.flow_helpers(prog, sl, [cv_raw], keep=KEEP)
+        raw_fields.append(cv_raw)
         if cv[0] != 'agg' or not (cv[1] or '').endswith(adt):
             rep.unproven('R1', adt, c.where(), 'context is not a struct literal: ' + vstr(cv)[:100])
             continue
@@ -197,6 +221,7 @@ def run(ctx, rep):
         # (an array filled slot by slot from a literal table — `for (slot, row) in vals.iter_mut().zip(TABLE) { *slot = read(row)? }` —
         # is read slot by slot: C06_helpers.resolve_filled)
         f = {k: H.resolve_filled(EF, sl.inline_deep(v, keep=KEEP)) for k, v in cv[3]}
+        raw_fields.extend(v for _, v in cv[3])
         adt_fields = sorted(x['name'] for v in prog.adt(cv[1])['variants'] for x in v['fields'])
         is_arg = lambda name: (lambda v: args_field(v, host.path, name))
         bp_dir = lambda v: stringy(v)[0] == 'unwrap' and env_var_name(stringy(v)[1]) == 'CNB_BUILDPACK_DIR'
@@ -221,7 +246,7 @@ def run(ctx, rep):
         # entries, editing a path): the locals that carry the context's parts are never borrowed mutably
         from .lib.mir import op_place as _opl
         p0 = _opl(c.args[1])
-        muts = H.inplace_mutations(host, H.carried_locals_filled(EF, host, [p0[0]]), allow=filled) if p0 else ['context operand is not a place']
+        muts = H.inplace_mutations(host, H.carried_locals_through(EF, host, [p0[0]], ctx_helpers), allow=filled) if p0 else ['context operand is not a place']
         rep.check(not muts, 'R1', adt + '/unmodified', c.where(), 'no part of the context is modified in place before the hand-over',
                   'an input is modified in place before it reaches %s: %s' % (adt, '; '.join(muts[:3])))
         # ---- R3 (per host: the Target handed to this phase) ------------------------------------------------
@@ -242,6 +267,8 @@ def run(ctx, rep):
                 rep.check(exact == TARGET.get(name), 'R3', 'target-exact/' + name, c.where(), '%s = content of %s, unmodified' % (name, TARGET.get(name)),
                           'Target.%s is not the unmodified content of %s: %s' % (name, TARGET.get(name), vstr(fv)[:120]))
             rep.check(sorted(n for n, _ in tv[3]) == sorted(TARGET), 'R3', 'target/fields', c.where(), 'all Target fields covered', 'Target fields: %s' % [n for n, _ in tv[3]])
+        elif 'target' not in fd:
+            rep.unproven('R3', 'target/same-in-build', c.where(), 'DetectContext.target was not found: nothing to compare BuildContext.target with')
         else:
             rep.check(f.get('target') == fd.get('target'), 'R3', 'target/same-in-build', c.where(), 'build gets the same Target construction as detect',
                       'BuildContext.target is assembled differently from DetectContext.target: ' + vstr(tv)[:120])
@@ -249,19 +276,34 @@ def run(ctx, rep):
             fd = f
         else:
             fb = f
+    # "the function that assembles the context's Target" is reported under the name it has on the pinned tree wherever it
+    # lives and however it is declared today (lib/mir aliases cover pure renames / moves; C06_helpers.baseline_names a changed
+    # declaration kind; this a changed signature)
+    H.name_by_role(prog, sl, raw_fields, 'target::Target', 'libcnb::runtime::context_target')
     # the same for the private helpers the assembly is split into (context_target, read_buildpack_dir, ..): what they return
     # is not changed in place after it was read
+    # (which functions these are is read off the values, not off where they are declared: every non-public workspace function
+    # whose return value is part of a context field — the ones inline_deep made transparent above — and its closures, be it a
+    # neighbour in runtime.rs, an associated constructor next to the type it builds or a generic helper in another module)
     hm = []
-    for path_, g in sorted(prog.reach([rd, rb]).items()):
-        if g.crate == 'libcnb' and path_.startswith('libcnb::runtime::') and g.vis != 'pub' and g.kind in ('Fn', 'AssocFn', 'Closure') and g not in (rd, rb):
-            rep.analysed(g)
-            hm.extend(H.inplace_mutations(g, H.carried_locals_filled(EF, g, [0]), allow=filled))
+    helpers_ = {path_: g for path_, g in prog.reach([rd, rb]).items()
+                if g.crate == 'libcnb' and path_.startswith('libcnb::runtime::') and g.vis != 'pub' and g.kind in ('Fn', 'AssocFn', 'Closure') and g not in (rd, rb)}
+    for path_, g in H.flow_helpers(prog, sl, raw_fields, keep=KEEP).items():
+        if g.crate == 'libcnb' and g not in (rd, rb):
+            helpers_.setdefault(path_, g)
+            for cl in prog.closures_of(g):
+                helpers_.setdefault(cl.path, cl)
+    for path_, g in sorted(helpers_.items()):
+        rep.analysed(g)
+        hm.extend(x for x in H.inplace_mutations(g, H.carried_locals_filled(EF, g, [0]), allow=filled) if x not in hm)
     rep.check(not hm, 'R1', 'helpers/unmodified', '%s:%d' % (rd.file, rd.line), 'no assembly helper modifies in place what it hands back',
               'an input is modified in place inside an assembly helper: ' + '; '.join(hm[:3]))
     # ---- R2 ------------------------------------------------------------------------------------------
+    parser_of = {}      # phase -> the function that parses its arguments (under whatever path it lives today)
     for phase, want in (('Detect', {'platform_dir_path': '[1]', 'build_plan_path': '[2]'}),
                         ('Build', {'layers_dir_path': '[1]', 'platform_dir_path': '[2]', 'buildpack_plan_path': '[3]'})):
-        pf = prog.fn('libcnb::runtime::%sArgs::parse' % phase)
+        pf = H.find_fn(prog, 'libcnb::runtime::%sArgs::parse' % phase)
+        parser_of[phase] = pf.path
         rep.analysed(pf)
         # private helpers the parsing is split into are transparent; "element k of argv" is read in its normal form
         # (C06_helpers.element: slice patterns, split_first / sub-slices / slice->array conversions / array::map)
@@ -281,7 +323,7 @@ def run(ctx, rep):
     # the argv handed to the parsers is the process's argument list, element for element (no argument dropped, replaced or
     # re-encoded on the way: positions and paths are exactly what the lifecycle passed)
     from .lib import iters
-    PARSERS = {'libcnb::runtime::DetectArgs::parse': 'DetectArgs', 'libcnb::runtime::BuildArgs::parse': 'BuildArgs'}
+    PARSERS = {parser_of['Detect']: 'DetectArgs', parser_of['Build']: 'BuildArgs'}
     rt = prog.fns.get('libcnb::runtime::libcnb_runtime')
     # stated on the *effect* "the parser is called" reached from libcnb_runtime (through closures and private helpers the
     # dispatch is split into), with the argument in libcnb_runtime's terms
@@ -316,14 +358,14 @@ def run(ctx, rep):
                 handed.add(phase)
                 av = sl.inline_deep(sl.operand(g, c.args[1]), keep=tuple(PARSERS))
                 al = [strip(x) for x in H.handed_alts(sl, prog, av)]
-                ok = bool(al) and all(x[0] == 'call' and x[1] == 'libcnb::runtime::%sArgs::parse' % phase for x in al)
-                bad_ = [x for x in al if not (x[0] == 'call' and x[1] == 'libcnb::runtime::%sArgs::parse' % phase)]
+                ok = bool(al) and all(x[0] == 'call' and x[1] == parser_of[phase] for x in al)
+                bad_ = [x for x in al if not (x[0] == 'call' and x[1] == parser_of[phase])]
                 rep.check(ok, 'R2', 'args-handed-on/' + phase, c.where(), 'libcnb_runtime_%s receives %sArgs::parse(argv)' % (phase.lower(), phase),
                           'libcnb_runtime_%s receives %s' % (phase.lower(), vstr(bad_[0] if bad_ else av)[:140]))
     for phase in sorted({'Detect', 'Build'} - handed):
         rep.unproven('R2', 'args-handed-on/' + phase, '%s:%d' % (rd.file, rd.line), 'no call of libcnb_runtime_%s found in libcnb_runtime' % phase.lower())
     # ---- R4 ------------------------------------------------------------------------------------------
-    pe = prog.fn('libcnb::platform::read_platform_env')
+    pe = H.find_fn(prog, 'libcnb::platform::read_platform_env')
     rep.analysed(pe)
     pw = '%s:%d' % (pe.file, pe.line)
     root = lambda y: y[0] == 'param' and y[1] == pe.path and y[2] == 0
@@ -429,6 +471,7 @@ def run(ctx, rep):
         rfns = []
         for rx in ASSEMBLY_RX[1:2]:
             rfns.extend(prog.find(rx))
+        rfns.extend(g for g in [pe] + list(prog.closures_of(pe)) if g not in rfns)
         for path_, g in sorted(prog.reach(rfns).items()):
             if g.crate == 'libcnb' and g.vis != 'pub' and g not in rfns:
                 rfns.append(g)
@@ -588,6 +631,16 @@ def run(ctx, rep):
     hosts = [g for g in prog.reach([rb]).values() if g.crate == 'libcnb' and g.kind != 'Closure'
              and any((c.name or '').endswith('read_toml_file') for c in g.calls)
              and any(x == ('const', 'store.toml') for c in g.calls if (c.name or '').endswith('read_toml_file') for x in walk(sl.operand(g, c.args[0])))]
+    # ... or a helper anywhere in the crate that is handed the path: the effect "read_toml_file is called" reached from
+    # libcnb_runtime_build, with the path in libcnb_runtime_build's terms (lib/effects), names the function that reads store.toml
+    E5R = Effects(prog, sl, vocab={READ_TOML: ('READ_TOML', 0)})
+    for e in E5R.expand(rb, 'may'):
+        if e.kind == 'READ_TOML' and e.args and any(x == ('const', 'store.toml') for x in walk(e.args[0])):
+            h = e.call.fn
+            while h is not None and h.kind == 'Closure':
+                h = prog.fns.get(h.parent)
+            if h is not None and h.crate == 'libcnb' and h not in hosts:
+                hosts.append(h)
     # the alternative `None` may be produced in the host itself or in a closure it hands to a Result combinator
     # (`.or_else(|e| match e { IoError(io) if not_found(io) => Ok(None), other => Err(other) })`): there the closure's
     # parameter is the error of the combinator's receiver (C06_helpers.closure_binding), which is the `Err` decision
@@ -611,7 +664,7 @@ def run(ctx, rep):
                 v = sl._rvalue(g, s[2], set(), 0, None)
                 if s[2].get('variant') == 'Ok':
                     inner = strip(dict(v[3]).get('0', ('unknown',)))
-                elif s[2].get('variant') == 'None' and 'Option<' in g.locals[s[1][0]]['ty'] and not g.ret.startswith('std::result::Result<std::option::Option'):
+                elif s[2].get('variant') == 'None' and 'Option<' in g.locals[s[1][0]]['ty']:
                     inner = v
                 else:
                     continue
@@ -757,6 +810,8 @@ def run(ctx, rep):
     fns = []
     for rx in ASSEMBLY_RX:
         fns.extend(prog.find(rx))
+    # (the platform env reader under whatever path it lives today)
+    fns.extend(g for g in [pe] + list(prog.closures_of(pe)) if g not in fns)
     # private helpers (and their closures) that the assembly functions are split into read inputs on their behalf
     have = {f.path for f in fns}
     # (the telemetry exporter of the optional `trace` feature is documented best-effort and reads no platform input:
@@ -765,6 +820,14 @@ def run(ctx, rep):
     for path, g in sorted(prog.reach(fns, stop=lambda f_: out_of_subject(f_.path)).items()):
         if path not in have and g.crate in ('libcnb', 'libcnb_common') and g.vis != 'pub' and g.kind in ('Fn', 'AssocFn', 'Closure') and not out_of_subject(path):
             fns.append(g)
+            have.add(path)
+    # ... as does every function whose return value is part of a context (the ones made transparent for R1), whatever its
+    # visibility and wherever it is declared
+    for path, g in sorted(H.flow_helpers(prog, sl, raw_fields, keep=KEEP).items()):
+        for h in [g] + list(prog.closures_of(g)):
+            if h.path not in have and h.crate in ('libcnb', 'libcnb_common') and not out_of_subject(h.path):
+                fns.append(h)
+                have.add(h.path)
     for f in fns:
         rep.analysed(f)
         per = {}
@@ -773,7 +836,7 @@ def run(ctx, rep):
                 continue
             if c.is_('std::ops::Try::branch') or (c.name or '').endswith('::from_residual'):
                 continue
-            if c.name in ('libcnb::runtime::DetectArgs::parse', 'libcnb::runtime::BuildArgs::parse'):
+            if c.name in PARSERS:
                 continue
             n += 1
             rep.sites()
@@ -783,7 +846,7 @@ def run(ctx, rep):
             tagv = arg0[1] if arg0[0] == 'const' and isinstance(arg0[1], str) else ''
             k = per.get((c.name, tagv), 0)
             per[(c.name, tagv)] = k + 1
-            subj = '%s/%s%s#%d' % (f.path, c.name, '(%s)' % tagv if tagv else '', k)
+            subj = '%s/%s%s#%d' % (H.reported_name(prog, f), c.name, '(%s)' % tagv if tagv else '', k)
             if vd == 'discarded' and c.args and stat_predicate(sl, f, c, fates):
                 # fs::metadata(p).is_ok_and(|m| m.is_file()) *is* the bool predicate Path::is_file(p) of std (a failed stat
                 # means "not a regular file"); what the predicate guards is R4's obligation
@@ -804,7 +867,7 @@ def run(ctx, rep):
                     continue
                 fates = local_fates(prog, f, local, {}, set(), 0)
                 vd = verdict(fates)
-                subj = '%s/param:%s' % (f.path, f.local_name(local) or '_%d' % local)
+                subj = '%s/param:%s' % (H.reported_name(prog, f), f.local_name(local) or '_%d' % local)
                 where = '%s:%d' % (f.file, f.line)
                 if vd in ('ok', 'panics'):
                     rep.holds('R6', subj, where, 'result propagated')
